@@ -151,6 +151,7 @@ type mesh struct {
 	t     *testing.T
 	net   *meshNet
 	inst  []*meshInst
+	retired []*meshInst // earlier incarnations of restarted instances (their deliveries still count)
 	yaml  string
 	root  string
 	epoch time.Time
@@ -267,6 +268,19 @@ func (m *mesh) crash(i int) {
 	m.net.mu.Unlock()
 }
 
+// restart stops instance i for real (it leaves the cluster, writes its snapshots) and starts it again on the same
+// address, with or without its data directory.
+func (m *mesh) restart(i int, keepData bool) {
+	in := m.inst[i]
+	in.f.stop()
+	in.peer.VerifShutdown()
+	m.retired = append(m.retired, in)
+	if !keepData {
+		os.RemoveAll(filepath.Join(in.dir, "data"))
+	}
+	m.start(i, in.dir)
+}
+
 func (m *mesh) live() []*meshInst {
 	var l []*meshInst
 	for _, in := range m.inst {
@@ -296,7 +310,7 @@ func (m *mesh) stopAll() {
 // attempts returns the union of deliveries: everything from live instances, and what crashed ones sent before their crash.
 func (m *mesh) attempts() []fAttempt {
 	var out []fAttempt
-	for _, in := range m.inst {
+	for _, in := range append(append([]*meshInst{}, m.retired...), m.inst...) {
 		if in == nil {
 			continue
 		}
@@ -325,6 +339,8 @@ var c08Alphabet = []string{
 	"isolate am0", "isolate am2", "cut am0<->am1", "heal all links",
 	"crash am0", "crash am1",
 	"the receiver becomes unreachable from am0 and am1 (recoverable errors), still reachable from the last instance",
+	"restart am1 with its data directory; firing alerts are sent again to every instance",
+	"restart am1 with an empty data directory; firing alerts are sent again to every instance",
 }
 
 type c08Cfg struct {
@@ -332,6 +348,7 @@ type c08Cfg struct {
 	faults      bool
 	peerTimeout time.Duration // 0 = 5s
 	shortGI     bool          // group_interval 10s: the peer wait of later instances exceeds the un-extended flush timeout
+	restarts    bool          // restart events enabled
 }
 
 const fYAMLShortGI = `global:
@@ -371,7 +388,7 @@ func c08Run(t *testing.T, cfg c08Cfg, h []int) (res seqx.Result) {
 		gt := newGT(time.Minute)
 		x := &fx{t: t, gt: gt, env: m.inst[0].env}
 		_ = x
-		faulty := false
+		faulty, unreachable, cutOff, restarted := false, false, false, false
 		time.Sleep(25 * time.Second) // gossip settles
 		synctest.Wait()
 		now := func() time.Duration { return time.Since(m.epoch) }
@@ -444,10 +461,36 @@ func c08Run(t *testing.T, cfg c08Cfg, h []int) (res seqx.Result) {
 					m.inst[i].env.setMode("", mRecoverable)
 				}
 				faulty = true
+				unreachable = true
+			case 13, 14:
+				// not a fault in the sense of the no-duplicate clause: the network is healthy, the instance comes back
+				// through a clean shutdown and gets the cluster's state when it joins
+				if cfg.n < 2 || !cfg.restarts || m.inst[1].crashed {
+					res.Skip = true
+					break
+				}
+				m.restart(1, e == 13)
+				restarted = true
+				if unreachable && cfg.n > 2 {
+					m.inst[1].env.setMode("", mRecoverable) // the new process is where the old one was
+				}
+				time.Sleep(time.Second)
+				gt.horizon = now() + time.Hour
+				for _, name := range []string{"A", "B"} {
+					if a := gt.alerts[name]; a != nil && gt.firing(name).contains(now()) {
+						m.postAll(fPostAlert{Labels: map[string]string{"alertname": name, "g": "1"}, EndsAt: rfc(time.Now().Add(time.Hour))})
+						a.posts = append(a.posts, gtPost{at: now(), end: now() + time.Hour})
+					}
+				}
 			}
 			if res.Skip {
 				m.stopAll()
 				return
+			}
+			// nobody that is still alive can reach the receiver: the premise "the integration accepted deliveries" ends here
+			if unreachable && m.inst[cfg.n-1].crashed && !cutOff {
+				cutOff = true
+				gt.modes = append(gt.modes, gtModeChange{at: now(), key: "", mode: mRecoverable})
 			}
 			time.Sleep(time.Millisecond)
 			synctest.Wait()
@@ -488,13 +531,47 @@ func c08Run(t *testing.T, cfg c08Cfg, h []int) (res seqx.Result) {
 		}
 		// no duplicates when healthy: every notification in the union is justified w.r.t. the previous one in the union
 		if !faulty {
-			if v := monitorC04(gt, mc, att, gk1); v != nil {
+			// Known shape (DESIGN 5): after a restart the restarted instance's group timers have another phase. If its
+			// tick plus its peer wait lands within one gossip latency of another instance's tick when a repeat has come
+			// due, both consult the log before the other's entry has arrived and both send. Such a pair - at most one
+			// gossip interval apart, different instances, different ticks, same listing, one of them restarted - is set
+			// aside and reported under its own signature; every other unjustified notification keeps the generic one.
+			natt := att
+			var simultaneous []string
+			if restarted {
+				natt = nil
+				for _, d := range att {
+					twin := false
+					if d.OK {
+						for _, p := range natt {
+							// sent before the other's log entry can have arrived: gossip leaves every 500ms (meshOpts)
+							if p.OK && p.Instance != d.Instance && p.Integ == d.Integ && p.GroupKey == d.GroupKey && p.String()[len(fmt.Sprint(p.At)):] == d.String()[len(fmt.Sprint(d.At)):] &&
+								d.At-p.At <= 502*time.Millisecond && d.Tick != p.Tick {
+								twin = true
+							}
+						}
+					}
+					if twin {
+						simultaneous = append(simultaneous, d.Instance+" "+d.String())
+						continue
+					}
+					natt = append(natt, d)
+				}
+			}
+			if v := monitorC04(gt, mc, natt, gk1); v != nil {
 				res.Viol, res.Desc = "cluster-duplicate-"+v.sig, fmt.Sprintf("%d healthy instances: %s", cfg.n, v.desc)
 				return
 			}
-			// and a later-positioned instance stays silent: what it would send was already sent by am0
+			if len(simultaneous) > 0 {
+				res.Viol = "cluster-near-simultaneous-repeat-after-restart/within-gossip-latency"
+				res.Desc = fmt.Sprintf("%d healthy instances, am1 restarted: sent within one gossip interval (500ms) of an identical notification of another instance: %s; union: %s", cfg.n, strings.Join(simultaneous, " ; "), strings.Join(ol, " ; "))
+				return
+			}
+			// and a later-positioned instance stays silent: what it would send was already sent by am0. (Not after a
+			// restart: the restarted instance's group timers have another phase, so a repeat that has come due may
+			// legitimately be sent by it first; duplicates are still caught by the justification rule above.)
 			for _, d := range att {
-				if !d.OK || d.Instance == "am0" {
+				if !d.OK || d.Instance == "am0" || restarted {
 					continue
 				}
 				pos := int(d.Instance[2] - '0')
@@ -526,9 +603,9 @@ func TestVerifC08(t *testing.T) {
 		dQ   int
 		dT   int
 	}{
-		{"mesh-3-faults", c08Cfg{n: 3, faults: true}, 3, 4},
+		{"mesh-3-faults", c08Cfg{n: 3, faults: true, restarts: true}, 3, 4},
 		{"mesh-3-short-interval", c08Cfg{n: 3, faults: true, peerTimeout: 6 * time.Second, shortGI: true}, 3, 4},
-		{"mesh-2-faults", c08Cfg{n: 2, faults: true}, 2, 4},
+		{"mesh-2-faults", c08Cfg{n: 2, faults: true, restarts: true}, 3, 4},
 		{"mesh-1", c08Cfg{n: 1}, 2, 3},
 	}
 	for _, c := range cfgs {
